@@ -17,5 +17,6 @@ OpsContract == {"partner", "tensordot", "transpose"}
 OpsArith == {"arith", "diag", "reduce", "transpose", "einsum"}
 OpsAlgebra == {"arith", "diag", "reduce", "conj", "expand", "phase", "einsum"}
 OpsEinsum == {"einsum", "transpose", "conj", "phase", "reduce"}
+OpsChain == {"chain"}
 OpsStruct == {"transpose", "conj", "expand", "fuse", "phase"}
 =============================================================================
